@@ -13,8 +13,10 @@ Definition c2 := c1 + c1. Definition c3 := c2 + c1. Definition c4 := c2 + c2.
 Definition c6 := c3 + c3. Definition c8 := c4 + c4. Definition chalf := c1 / c2.
 
 (* type='FE':  [[a, b, c], [d, e, d], [c, b, a]] / 6.0 *)
-Definition fe_stencil (eps C S : F) : list (list F) :=
-  let CS := C * S in let CC := C * C in let SS := S * S in
+(* the stencils as functions of eps and of the three products the library forms first: CS = C*S, CC = C**2, SS = S**2
+   (the two squares go through libm's pow, which is not always the correctly rounded product: the run side feeds the
+   values the library obtained; the theorems are about CC = C*C, SS = S*S) *)
+Definition fe_stencil_of (eps CS CC SS : F) : list (list F) :=
   let m := (- c1) * eps - c1 in
   let a := (m * CC + m * SS) + (c3 * eps - c3) * CS in
   let b := (c2 * eps - c4) * CC + ((- c4) * eps + c2) * SS in
@@ -22,16 +24,17 @@ Definition fe_stencil (eps C S : F) : list (list F) :=
   let d := ((- c4) * eps + c2) * CC + (c2 * eps - c4) * SS in
   let e := (c8 * eps + c8) * CC + (c8 * eps + c8) * SS in
   map (map (fun v => v / c6)) [[a; b; c]; [d; e; d]; [c; b; a]].
+Definition fe_stencil (eps C S : F) : list (list F) := fe_stencil_of eps (C * S) (C * C) (S * S).
 
 (* type='FD' *)
-Definition fd_stencil (eps C S : F) : list (list F) :=
-  let CS := C * S in let CC := C * C in let SS := S * S in
+Definition fd_stencil_of (eps CS CC SS : F) : list (list F) :=
   let a := (chalf * (eps - c1)) * CS in
   let b := - (eps * SS + CC) in
   let c := - a in
   let d := - (eps * CC + SS) in
   let e := c2 * (eps + c1) in
   [[a; b; c]; [d; e; d]; [c; b; a]].
+Definition fd_stencil (eps C S : F) : list (list F) := fd_stencil_of eps (C * S) (C * C) (S * S).
 
 (* the stencil applied to a grid function u(x, y), x = i - 1 (first index), y = j - 1 (second index) *)
 Definition coord (k : nat) : F := match k with O => - c1 | S O => zero o | _ => c1 end.
